@@ -353,7 +353,10 @@ impl Exec {
         } }
         if name == "disposition" { for k in ["first", "last"] { if let Some(d) = f.get(k).and_then(|r| r.get("d")).and_then(|r| r.as_u64()) {
             let ech = e.get("ech").and_then(|x| x.as_u64()).unwrap_or(0) as u16;
-            match self.eut_dids.get(&ech).and_then(|v| v.get(d as usize)) { Some(id) => f[k] = json!(off(*id, self.sh.out)), None => return self.skip(e, "delivery not seen") } } } }
+            // the d-th delivery the endpoint started on that session; ids are consecutive, so a reference beyond the last one seen names an id the endpoint has not used yet
+            let seen = self.eut_dids.get(&ech).cloned().unwrap_or_default();
+            let id = match seen.get(d as usize) { Some(id) => *id, None => match seen.last() { Some(last) => last.wrapping_add((d as usize + 1 - seen.len()) as u32), None => return self.skip(e, "delivery not seen") } };
+            f[k] = json!(off(id, self.sh.out)); } } }
         let roles = self.roles.clone();
         let p = perf_from(name, &f, &self.sh, |h| *roles.get(&(false, ch, h)).unwrap_or(&false));
         if let Performative::Attach(a) = &p {
